@@ -35,6 +35,7 @@ type orderCase struct {
 	// OtherBad: the other protocol's section lists this failing plugin (and nothing else);
 	// the protocol under test lists a clean chain. Start-up must still abort.
 	OtherBad string `json:"other_bad,omitempty"`
+	LoadTwice bool  `json:"load_twice,omitempty"`
 }
 
 type orderEngine struct{}
@@ -85,6 +86,7 @@ func (orderEngine) Gen(rng *rand.Rand, tier string, i int) any {
 	}
 	c.YAML = rng.Intn(3) == 0
 	c.Both = rng.Intn(2) == 0
+	c.LoadTwice = rng.Intn(2) == 0
 	if rng.Intn(4) == 0 {
 		c.Both = false
 		c.OtherBad = []string{"synfail", "synnil", "nosuchplugin"}[rng.Intn(3)]
@@ -110,7 +112,8 @@ func (orderEngine) Run(ctx *fw.Ctx, cs any) {
 	for i, p := range c.Chain {
 		pcs = append(pcs, PlugConf{p.Name, []string{p.Behav, fmt.Sprint(i + 1)}})
 	}
-	job := &ChainJob{HasV4: !c.V6 || c.Both, HasV6: c.V6 || c.Both, Synth: []SynthPlugin{{}}}
+	// loading the same configuration object again (an in-process restart) must give the same chain
+	job := &ChainJob{HasV4: !c.V6 || c.Both, HasV6: c.V6 || c.Both, Synth: []SynthPlugin{{}}, LoadTwice: c.LoadTwice}
 	if job.HasV4 {
 		job.V4 = pcs
 	}
@@ -181,7 +184,7 @@ func (orderEngine) Run(ctx *fw.Ctx, cs any) {
 		}
 	}
 	out := RunChain(job, ctx.Scratch, 60*time.Second)
-	desc := fmt.Sprintf("chain %v v6=%v both=%v yaml=%v other-protocol-lists=%q", c.Chain, c.V6, c.Both, c.YAML, c.OtherBad)
+	desc := fmt.Sprintf("chain %v v6=%v both=%v yaml=%v other-protocol-lists=%q loaded-twice=%v", c.Chain, c.V6, c.Both, c.YAML, c.OtherBad, c.LoadTwice)
 	ctx.Nontrivial("C13", desc)
 
 	// which plugins must yield handlers for the protocol under test, and must setup fail?
